@@ -109,24 +109,30 @@ def enforce (sh : Shape) (cfg : Cfg) (enabled : Bool) (errBody body ext : Nat) (
   else ⟨.ok, body, ups⟩
 
 /-- the result-writing part of `_run_unary_sync`.
-    `pre` = schema message + client-log batches already in the stream, `eos` = end-of-stream marker,
-    `errBody` = size of the response when it is (replaced by) an error stream. -/
-def unaryRespond (sh : Shape) (cfg : Cfg) (pre eos errBody : Nat) (r : Batch) (framed ptr : Nat) : Resp :=
-  if capHit sh.unaryPreflight (predictBatch sh cfg r) cfg.extCap then ⟨.errExt, errBody, []⟩
+    `schema` = schema message, `pre` = schema message + client-log batches already in the stream (`schema ≤ pre`),
+    `eos` = end-of-stream marker, `errWire` = wire bytes of the EXCEPTION batch.
+    An external-cap refusal before the flush appends the error batch to the stream in progress; a post-flush overshoot
+    *replaces* the body by a fresh stream. -/
+def unaryRespond (sh : Shape) (cfg : Cfg) (schema pre eos errWire : Nat) (r : Batch) (framed ptr : Nat) : Resp :=
+  let appended := pre + errWire + eos
+  let replaced := schema + (if sh.unaryReplacementOnlyError then 0 else pre - schema) + errWire + eos
+  if capHit sh.unaryPreflight (predictBatch sh cfg r) cfg.extCap then ⟨.errExt, appended, []⟩
   else
     match flushBatch sh cfg (if sh.unaryPassesBudget then cfg.extCap else none) r framed ptr with
-    | .refused => ⟨.errExt, errBody, []⟩
-    | .inline w => enforce sh cfg sh.unaryEnforces errBody (pre + w + eos) 0 []
-    | .uploaded w up => enforce sh cfg sh.unaryEnforces errBody (pre + w + eos) up [up]
+    | .refused => ⟨.errExt, appended, []⟩
+    | .inline w => enforce sh cfg sh.unaryEnforces replaced (pre + w + eos) 0 []
+    | .uploaded w up => enforce sh cfg sh.unaryEnforces replaced (pre + w + eos) up [up]
 
-/-- the flush part of `_run_http_exchange_turn` (`pre` = schema message) -/
-def exchangeTurn (sh : Shape) (cfg : Cfg) (pre eos errBody : Nat) (p : Payload) : Resp :=
-  if capHit sh.exchangePreflight (predictColl sh cfg p) cfg.extCap then ⟨.errExt, errBody, []⟩
+/-- the flush part of `_run_http_exchange_turn` (`pre` = schema message).  Every cap error is answered through
+    `_exchange_error_response`: a fresh stream. -/
+def exchangeTurn (sh : Shape) (cfg : Cfg) (pre eos errWire : Nat) (p : Payload) : Resp :=
+  let replaced := pre + (if sh.exchangeReplacementOnlyError then 0 else p.logs) + errWire + eos
+  if capHit sh.exchangePreflight (predictColl sh cfg p) cfg.extCap then ⟨.errExt, replaced, []⟩
   else
     match flushColl sh cfg (if sh.exchangePassesBudget then cfg.extCap else none) p with
-    | .refused => ⟨.errExt, errBody, []⟩
-    | .inline w => enforce sh cfg sh.exchangeEnforces errBody (pre + w + eos) 0 []
-    | .uploaded w up => enforce sh cfg sh.exchangeEnforces errBody (pre + w + eos) up [up]
+    | .refused => ⟨.errExt, pre + errWire + eos, []⟩      -- ExternalBudgetExceededError → `_RpcHttpError`, no logs in flight
+    | .inline w => enforce sh cfg sh.exchangeEnforces replaced (pre + w + eos) 0 []
+    | .uploaded w up => enforce sh cfg sh.exchangeEnforces replaced (pre + w + eos) up [up]
 
 /-- one `process()` call of a producer: what the collector holds afterwards, or the fact that it raised -/
 structure Iter where
